@@ -26,6 +26,7 @@ import (
 	"modernc.org/sqlite"
 
 	"github.com/benbjohnson/litestream/internal"
+	"github.com/benbjohnson/litestream/verifhook"
 )
 
 // Default DB settings.
@@ -449,6 +450,7 @@ func (db *DB) beginSyncDiag(operation diagOp) {
 }
 
 func (db *DB) setSyncDiagPhase(phase diagPhase, updates ...func(*diagState)) {
+	verifhook.Yield("phase:" + string(phase))
 	db.syncDiag.Lock()
 	defer db.syncDiag.Unlock()
 	if !db.syncDiag.active {
@@ -816,8 +818,10 @@ func (db *DB) Open() (err error) {
 // and closes the database. If Done is set, closing it interrupts the shutdown
 // sync retry loop and cancels any in-flight sync attempt.
 func (db *DB) Close(ctx context.Context) (err error) {
+	verifhook.Yield("db:close_begin")
 	db.cancel()
 	db.wg.Wait()
+	verifhook.Yield("db:close_monitor_stopped")
 
 	// Acquire without honoring caller cancellation: the cleanup below
 	// (read lock release, handle closes, state reset) must always run or
@@ -837,6 +841,7 @@ func (db *DB) Close(ctx context.Context) (err error) {
 	}
 
 	// Ensure replicas perform a final sync and stop replicating.
+	verifhook.Yield("db:close_synced")
 	if db.Replica != nil {
 		if db.db != nil {
 			if e := db.syncReplicaWithRetry(ctx); e != nil && err == nil {
@@ -1245,6 +1250,7 @@ func (db *DB) syncOnce(ctx context.Context, maxSyncWALBytes int64) (syncResult, 
 }
 
 func (db *DB) lockExec(ctx context.Context) error {
+	verifhook.Yield("db:lock_exec")
 	if db.execSem.TryAcquire(1) {
 		return nil
 	}
@@ -2656,6 +2662,7 @@ func (db *DB) execCheckpoint(ctx context.Context, mode string) (walFrameN int, e
 		return 0, fmt.Errorf("release read lock: %w", err)
 	}
 	defer func() { _ = db.acquireReadLock(ctx) }()
+	verifhook.Yield("ckpt:read_lock_released")
 
 	// A non-forced checkpoint is issued as "PASSIVE". This will only checkpoint
 	// if there are not pending transactions. A forced checkpoint ("RESTART")
@@ -2670,6 +2677,7 @@ func (db *DB) execCheckpoint(ctx context.Context, mode string) (walFrameN int, e
 		return 0, err
 	}
 	db.Logger.Debug("checkpoint", "mode", mode, "result", fmt.Sprintf("%d,%d,%d", row[0], row[1], row[2]))
+	verifhook.Yield("ckpt:pragma_done")
 
 	// Reacquire the read lock immediately after the checkpoint.
 	if err := db.acquireReadLock(ctx); err != nil {
@@ -2814,6 +2822,7 @@ func (db *DB) snapshotReader(ctx context.Context, pos *snapshotReadPosition) (io
 	pr, pw := io.Pipe()
 	go func() {
 		defer pos.close()
+		verifhook.Yield("snapshot:encoder_start")
 
 		walFile, err := os.Open(db.WALPath())
 		if err != nil {
@@ -2937,6 +2946,7 @@ func (db *DB) Snapshot(ctx context.Context) (*ltx.FileInfo, error) {
 	}
 	defer func() { _ = r.Close() }()
 
+	verifhook.Yield("snapshot:before_write")
 	info, err := db.Replica.Client.WriteLTXFile(ctx, SnapshotLevel, 1, pos.TXID, r)
 	if err != nil {
 		return info, err
